@@ -119,7 +119,7 @@ def is_strictly_sorted(a: np.ndarray) -> bool:
 # sub-meshes with their own numbering (inputs of Mesh.Merge)
 
 
-def submesh(mesh: Mesh, elems: dict, perm_seed=None, shift=(0.0, 0.0, 0.0)):
+def submesh(mesh: Mesh, elems: dict, perm_seed=None, shift=(0.0, 0.0, 0.0), split_node=None):
     """Mesh made of the rows `elems[type]` of each group of `mesh`, with a compact own node numbering
     (optionally permuted) and coordinates translated by `shift`.
     Returns (sub, loc2glob) where loc2glob[j] = node of `mesh` that is node j of `sub`."""
@@ -144,9 +144,21 @@ def submesh(mesh: Mesh, elems: dict, perm_seed=None, shift=(0.0, 0.0, 0.0)):
     glob2loc = np.full(mesh.Nn, -1, int)
     glob2loc[loc2glob] = np.arange(n)
     coord = np.asarray(mesh.coord, float)[loc2glob] + np.asarray(shift, float)[None, :]
+    lconns = {t: glob2loc[c] for t, c in conns.items()}
+    if split_node:
+        # one element of the highest-dimension group gets a node of its own at the place of its first node (two nodes of
+        # the SAME mesh at the same place, as on the lips of a crack): a new node, with an identity of its own
+        tmain = max(lconns, key=lambda t: (groups(mesh)[t].dim, lconns[t].shape[0]))
+        if lconns[tmain].shape[0] >= 2:
+            lc = lconns[tmain].copy()
+            old = int(lc[0, 0])
+            lc[0, 0] = n
+            lconns[tmain] = lc
+            coord = np.vstack([coord, coord[old]])
+            loc2glob = np.concatenate([loc2glob, [int(split_node)]])
     d = {}
-    for t, c in conns.items():
-        d[ElemType(t)] = GroupElemFactory.Create(ElemType(t), glob2loc[c], coord)
+    for t, c in lconns.items():
+        d[ElemType(t)] = GroupElemFactory.Create(ElemType(t), c, coord)
     return Mesh(d), loc2glob
 
 
